@@ -87,6 +87,16 @@ func genPlan(r *rand.Rand, cfg cellCfg, cid int, heavy bool) connPlan {
 	if p.WritersFrom == "message" {
 		p.Msgs[r.Intn(len(p.Msgs))].Go = true
 	}
+	if cfg.Path == "poller" && len(p.Msgs) >= 2 && r.Intn(4) != 0 {
+		// the handler of one of the first three messages panics once; the callbacks behind it (and the close callback) must still
+		// run. Only where callbacks are jobs of the connection's executor (recovered per job): a panic inside the blocking
+		// reader's Parse fails the connection by design.
+		k := r.Intn(3)
+		if k > len(p.Msgs)-2 {
+			k = len(p.Msgs) - 2
+		}
+		p.Msgs[k].Panic = true
+	}
 	p.Pings = r.Intn(4)
 	if r.Intn(3) == 0 {
 		p.ReaderPause = 5 + r.Intn(40)
@@ -587,6 +597,11 @@ func runCell(rep *hx.Report, r *rand.Rand, cfg cellCfg, nconn int) {
 		}
 		rep.Stat(fmt.Sprintf("cell.%s.%s.%s", cfg.Path, cfg.Epoll, asyncName))
 		rep.Stat("end." + x.plan.End)
+		for _, mp := range x.plan.Msgs {
+			if mp.Panic {
+				rep.Stat("handler-panics." + cfg.Path)
+			}
+		}
 		if x.plan.Early != "" {
 			opened := "no-open"
 			if strings.HasPrefix(x.log, "O") {
